@@ -175,13 +175,21 @@ def generate(rng, tier, idx):
             ops.append({'op': 'app_draw', 'k': rng.randint(1, 700),
                         'how': rng.choice(['random', 'random', 'normal', 'randint'])})
         elif r < 0.78:
-            ops.append({'op': 'app_reseed', 's': rng.randrange(2**31)})
+            op = {'op': 'app_reseed', 's': rng.randrange(2**31)}
+            if (idx + len(ops)) % 3 == 0:
+                # the application seeds the global generator with the very state a model's
+                # own stream is in (np.random.seed(s) next to Model(random_state=s))
+                op['like'] = m
+            ops.append(op)
         elif r < 0.83:
             ops.append({'op': 'app_restore', 'j': rng.randrange(8)})
         elif r < 0.88:
             ops.append({'op': 'app_query', 'm': m})
         elif r < 0.93 and kinds[m] == 'biv':
             ops.append({'op': 'sample_badtau', 'm': m, 'n': 2})
+        elif r < 0.96 and (idx + len(ops)) % 2 == 0:
+            # history: the live model is fitted again (same data) between its sample calls
+            ops.append({'op': 'refit', 'm': m})
         elif r < 0.96:
             ops.append({'op': 'pair_fresh', 'm': m, 'seed': rng.randrange(2**31),
                         'n': rng.choice([1, 3]), 'k': rng.randint(1, 50),
@@ -746,8 +754,15 @@ def _run_ops(w, run, ctx):
             ctx.stats['ops'] += 1
             ctx.faults['F5_foreign_draws'] += 1
             ctx.event('app_draw', op['k'], v)
+        elif kind == 'refit':
+            _refit(w, mid)
         elif kind == 'app_reseed':
             np.random.seed(op['s'] % (2**32))
+            like = w.live.get(op.get('like'))
+            st = _model_state(like) if like is not None else None
+            if st is not None:
+                np.random.set_state(st)
+                ctx.faults['F5_global_state_equals_model_stream'] += 1
             ctx.stats['ops'] += 1
             ctx.faults['F5_foreign_reseed'] += 1
             ctx.event('app_reseed', state_digest())
@@ -773,6 +788,39 @@ def _run_ops(w, run, ctx):
             _dataset(w, op)
         elif kind == 'pair_fresh':
             _pair_fresh(w, op)
+
+
+def _refit(w, mid):
+    """I7 for a fit later in the object's life: the stored generator - from the constructor,
+    from set_random_state, advanced by earlier sample calls - is exactly where it was."""
+    ctx = w.ctx
+    spec = spec_of(w, mid)
+    if not w.meta[mid]['fitted']:
+        return
+    data = zoo.gen_data(spec['data'])
+    pt_old = w.proc.pop(mid, None)
+    if pt_old is not None:
+        pt_old.close()                       # the forked twin cannot follow a refit
+    g0 = np.random.get_state()
+    for model, who in ((w.live[mid], 'live'), (w.twin[mid], 'twin')):
+        before = _model_state(model)
+        with sterile(spec['fit_state']):
+            out = outcome(zoo.fit_model, model, spec, data)
+        after = _model_state(model)
+        if who == 'live':
+            ctx.stats['ops'] += 1
+            ctx.probes['refit_between_sample_calls'] += 1
+            ctx.event('refit', mid, outcome_class(out))
+            _abstract(w, mid, 'refit', outcome_class(out))
+            changed = (before is None) != (after is None) or (
+                before is not None and not states_equal(before, after))
+            if out[0] == 'ok' and changed:
+                ctx.violate('I7_fit_leaves_the_model_stream_untouched', _subject(model),
+                            'a refit %s the stored generator'
+                            % ('dropped' if after is None else
+                               'created' if before is None else 'moved'),
+                            seed_kind=_seed_kind(w, mid), refit=True)
+    np.random.set_state(g0)
 
 
 def _pair_fresh(w, op):
